@@ -50,9 +50,9 @@ def run(tier):
     if not rej:
         binding_selftest(ck, "StreamTrace", None, tr, _corrupt_stream, "stream trace", timeout=1800)
     # 5. the object API as a user holds it (constructors choose the header; every container), both directions vs libsodium
-    for cfg in ["stable", "nightly"]:
+    for cfg in ["stable", "nightly", RELEASE]:
         sp = os.path.join(wd, "session_%s.json" % cfg)
-        conform(cfg, ["stream-session", sp, ck.seed, 200 if thorough else 40, 60])
+        conform(cfg, ["stream-session", sp, ck.seed, 200 if thorough and cfg != RELEASE else 40, 60])
         ck.add_report(json.load(open(sp)), prefix="[%s] " % cfg if cfg != "stable" else "")
     # 6. first messages crafted so that the Poly1305 accumulator reaches a rare value inside or at the end of the MAC
     import polycraft
